@@ -66,11 +66,16 @@ def oracle(ctx, st, case, r, safety_only=False):
         if s is None or a is None or invd[0] != "b" or mode[0] != "s":
             ctx.fail(f"{at}: getters do not return finite float / finite float / bool / str", label, "typed getters", get, key="motor-types")
             return False
-        if not S.le(abs(s), 1.0):
-            ctx.fail(f"{at}: |speed| > 1", label, "|speed| <= 1", float(s), key="motor-speed-bound")
+        # the invariant clauses are EXACT inequalities / equalities on the binary64 values the object holds: no tolerance
+        # (an excursion of one ulp - 1.0000000000000002 - is |speed| > 1)
+        if not abs(s) <= 1.0:
+            ctx.fail(f"{at}: |speed| > 1 (speed = {s!r}, exact comparison)", label, "|speed| <= 1", repr(float(s)), key="motor-speed-bound")
             return False
         want = -s if invd[1] else s
-        if not S.close(a, want):
+        if not abs(a) <= 1.0:
+            ctx.fail(f"{at}: |applied speed| > 1 (applied = {a!r}, exact comparison)", label, "|applied speed| <= 1", repr(float(a)), key="motor-speed-bound")
+            return False
+        if not a == want:
             ctx.fail(f"{at}: applied speed is not the speed{' negated' if invd[1] else ''} (inverted={invd[1]})", label, float(want), float(a), key="motor-applied")
             return False
         want_mode = "drive" if a != 0 else ("brake" if ghost_stop else "coast")
@@ -101,6 +106,19 @@ def oracle(ctx, st, case, r, safety_only=False):
             return
         evs = S.i_events(rs["events"])
         sleeps = [e[1][1] for e in evs if e[0] == "sleep" and e[1][0] == "f"]
+        # every level the call drove the motor at (each intermediate ramp step, the run_for speed): the same exact clauses
+        for e in evs:
+            if e[0] != "lvl":
+                continue
+            st.oracle_checks += 1
+            lv = [x[1] if x[0] == "f" else None for x in e[1:3]]
+            if lv[0] is None or lv[1] is None or not (abs(lv[0]) <= 1.0 and abs(lv[1]) <= 1.0):
+                ctx.fail(f"{at}: during the call the motor was driven at speed {lv[0]!r} / applied speed {lv[1]!r}: outside [-1, 1] (exact comparison)",
+                         label, "|speed| <= 1 and |applied speed| <= 1 at every step", [repr(x) for x in lv], key="motor-speed-bound")
+                return
+            if abs(lv[1]) != abs(lv[0]):
+                ctx.fail(f"{at}: during the call the applied speed {lv[1]!r} was not +-speed {lv[0]!r}", label, "applied = +-speed", [repr(x) for x in lv], key="motor-applied")
+                return
         numeric = all(S.fnum(a) is not None for a in op[1:])
         if ok and op[0] == "ramp" and numeric and not safety_only:
             target = max(-1.0, min(1.0, S.fnum(op[1])))
@@ -119,7 +137,7 @@ def oracle(ctx, st, case, r, safety_only=False):
                 ctx.fail(f"{at}: ramp steps are not monotone from the start speed towards the target", label,
                          "monotone", [float(x) for x in seq], key="ramp-monotone")
                 return
-            if not S.close(end, target) or not S.close(speeds[-1], target):
+            if abs(end - target) > 1e-12 or abs(speeds[-1] - target) > 1e-12:      # "to float rounding": proved <= 2^-49 for the real algorithm
                 ctx.fail(f"{at}: ramp does not end at the clamped target", label, float(target), float(end), key="ramp-target")
                 return
             if len(sleeps) != len([e for e in evs if e[0] == "sleep"]) or not S.le(sum(sleeps), dur):
@@ -226,6 +244,72 @@ def random_seq(rng, decimal=False):
     return ops
 
 
+def F(x):
+    """the exact value of the binary64 number nearest to x (what CPython holds for the literal)"""
+    return Fr(float(x))
+
+
+# streams whose cases are ALSO run through the binary64 model (Host/DCMotorFloat.v: mstep_fl) and compared EXACTLY
+FLOAT_STREAMS = {"float-grid-100", "float-grid-1000", "float-interior", "float-chain", "float-random-start", "random-decimal", "random", "random-long"}
+
+
+def float_cases(ctx):
+    """Starts that make the binary64 step arithmetic of ramp() inexact - every k/100 and k/1000 in [-1, 1], seeded random
+    binary64 starts - ramped to and past both limits (float and int targets) and to interior targets, repeated ramps,
+    run_for / ramp / invert chains.  The property quantifies over all of them; ((target-start)/20)*20 != target-start
+    for many, so the raw 20th step leaves [-1, 1] by an ulp and only set_speed's clamp keeps |speed| <= 1."""
+    rng = ctx.rng
+    thorough = ctx.tier == "thorough"
+    out = []
+    durs = [0, 100, Fr(5, 2), 20, F(0.1), 1000, 7]
+    past = [F(1.0), F(-1.0), F(5.0), -2, 1, -1, F(1.5), F(-1.0000000000000002), F(1.0000000000000002)]
+    for k in range(-100, 101):
+        st0 = F(k / 100)
+        for j, t in enumerate(past if thorough else past[:4]):
+            d = durs[(k + j) % len(durs)]
+            out.append(("float-grid-100", ("motor", PINS, [("set_speed", st0), ("ramp", t, d), ("invert",), ("get_applied_speed",)])))
+        # the same start reached through backward() / an inverted motor / a ramp, not through set_speed
+        if k % 3 == 0:
+            out.append(("float-grid-100", ("motor", PINS, [("invert",), ("backward", F(abs(k) / 100)), ("ramp", 1, 20), ("ramp", F(-1.0), 0)])))
+    inner = [F(0.3), F(-0.7), F(0.1), F(0.0), F(0.999), F(-0.999)]
+    for k in range(-100, 101, 1 if thorough else 7):
+        for t in inner:
+            out.append(("float-interior", ("motor", PINS, [("set_speed", F(k / 100)), ("ramp", t, durs[k % len(durs)]), ("ramp", F(k / 100), 0)])))
+    for k in range(-1000, 1001):
+        st0 = F(k / 1000)
+        for t in (F(1.0), F(-1.0)) + ((F(3.0), -7) if thorough else ()):
+            out.append(("float-grid-1000", ("motor", PINS, [("set_speed", st0), ("ramp", t, durs[k % len(durs)]), ("get_speed",)])))
+    pool = [F(k / 100) for k in range(-100, 101)] + [F(x) for x in (1 / 3, -2 / 3, 0.1, 0.7, 1e-3, -1e-3, 0.123456789, -0.987654321)]
+    lim = [F(1.0), F(-1.0), 1, -1, F(5.0), F(-5.0), 2, -2]
+    for _ in range(3000 if thorough else 300):
+        ops = [("invert",)] if rng.random() < 0.3 else []
+        ops.append(("set_speed", rng.choice(pool)))
+        for _ in range(rng.randint(2, 7)):
+            x = rng.random()
+            d = rng.choice(durs)
+            if x < 0.45:
+                ops.append(("ramp", rng.choice(lim), d))
+            elif x < 0.65:
+                ops.append(("ramp", rng.choice(pool), d))
+            elif x < 0.75:
+                ops.append(("run_for", d, rng.choice(pool + lim)))
+                ops.append(("ramp", rng.choice(lim), d))
+            elif x < 0.83:
+                ops.append(("invert",))
+            elif x < 0.90:
+                ops.append(("backward", rng.choice(pool)))
+            elif x < 0.95:
+                ops.append(("set_speed", rng.choice(pool)))
+            else:
+                ops.append((rng.choice(["stop", "coast", "get_speed", "get_mode"]),))
+        out.append(("float-chain", ("motor", PINS, ops)))
+    for _ in range(20000 if thorough else 1500):
+        st0 = F(rng.uniform(-1.0, 1.0)) if rng.random() < 0.8 else F(rng.choice([-1, 1]) * (1 - rng.random() * 2 ** -rng.randint(1, 50)))
+        t = rng.choice(lim) if rng.random() < 0.8 else F(rng.uniform(-1.0, 1.0))
+        out.append(("float-random-start", ("motor", PINS, [("set_speed", st0), ("ramp", t, rng.choice(durs)), ("ramp", rng.choice(lim), 0)])))
+    return out
+
+
 def generate(ctx):
     """returns list of (stream, case)"""
     rng = ctx.rng
@@ -255,6 +339,7 @@ def generate(ctx):
         for _ in range(rng.randint(4, 10)):
             ops += random_seq(rng)
         cases.append(("random-long", ("motor", PINS, ops)))
+    cases += float_cases(ctx)
     return cases
 
 
@@ -429,14 +514,27 @@ def run_unit(ctx: C.Ctx) -> dict:
         st.bump(st.streams, s)
     impl = S.run_impl("motor", cases)
     exe = ctx.exes.get(UNIT)
-    model = ctx.model([S.wire_case(c) for c in cases], unit=UNIT) if exe else [None] * len(cases)
-    n_dis = 0
-    for case, r, m in zip(cases, impl, model):
+    rational = [i for i, (s, _) in enumerate(stream_cases) if not s.startswith("float-")]
+    binary64 = [i for i, (s, _) in enumerate(stream_cases) if s in FLOAT_STREAMS]
+    model = [None] * len(cases)
+    model_fl = [None] * len(cases)
+    if exe:
+        for i, m in zip(rational, ctx.model([S.wire_case(cases[i]) for i in rational], unit=UNIT)):
+            model[i] = m
+        # the same class with ramp() in binary64 (wire case 4): compared bit for bit, no tolerance
+        for i, m in zip(binary64, ctx.model([[4] + S.wire_case(cases[i])[1:] for i in binary64], unit=UNIT)):
+            model_fl[i] = m
+    n_dis = n_dis_fl = n_exact = 0
+    for case, r, m, mf in zip(cases, impl, model, model_fl):
         S.account(st, case, r)
         oracle(ctx, st, case, r)
         if m is not None and n_dis < 25:
             if not S.compare_case(ctx, st, case, m, r):
                 n_dis += 1
+        if mf is not None and n_dis_fl < 25:
+            n_exact += len(case[2])
+            if not S.compare_case(ctx, st, case, mf, r, exact=True):
+                n_dis_fl += 1
     spec = specials_cases(ctx.rng, 1500 if ctx.tier == "thorough" else 200)
     n_spec = 0
     for case, r in zip(spec, S.run_impl("motor", spec, real_sleep=True)):
@@ -452,6 +550,7 @@ def run_unit(ctx: C.Ctx) -> dict:
     dist["specials_stream_ops_implementation_only"] = n_spec
     dist["calls_with_ieee_special_floats_compared_with_model_and_judged_by_the_oracle"] = n_x
     dist["fixed_witnesses_replayed_first"] = n_fixed
+    dist["calls_compared_bit_for_bit_with_the_binary64_model"] = n_exact
     return {
         "unit": UNIT,
         "evaluations": st.steps,
